@@ -160,11 +160,28 @@ def handle : Driver.Handler := fun op j =>
     let offs := columnOffsets (names.map (fun k => (kindOf schema k).fieldSize)) crs
     let im := use.map (fun k => names.idxOf k)
     let flags := flagsOf file crs names.length offs im (use.map (fun k => ({ kind := kindOf schema k } : Imp))) fuel
+    -- finding NC06d (as found, a categorical column without free text stored 0 for a cell that is no category): the harness
+    -- may send `schema_asfound`, the same schema with such cells listed as categories of value 0 — on which the model WITH
+    -- the fix computes what the code as found computed; its result is reported under `asfound` (accepted by the harness
+    -- only while NC06d is listed open)
+    let asfound : List (String × Json) ← match j.getObjVal? "schema_asfound" with
+      | .error _ => pure []
+      | .ok v => do
+        let sj' ← fromJson? (α := List Json) v
+        let schema' ← sj'.mapM (fun e => do
+          let n ← e.getObjValAs? String "name"
+          let k ← kindOfJson e
+          pure (n, k))
+        pure [("asfound", match readCsv file names schema' incl excl crs fuel with
+          | .ok o => Driver.okJson <| Json.mkObj [("rows", toJson o.rows), ("order", toJson (o.fields.map (·.name))),
+              ("fields", Json.mkObj (o.fields.map (fun f => (f.name, typedJson f.imp))))]
+          | .error e => Json.mkObj [("err", Json.str e.tag)])]
     match readCsv file names schema incl excl crs fuel with
     | .ok o =>
-      pure <| Driver.okJson <|
+      pure <| Json.mkObj ([("ok",
         Json.mkObj [("rows", toJson o.rows), ("order", toJson (o.fields.map (·.name))),
-                    ("fields", Json.mkObj (o.fields.map (fun f => (f.name, typedJson f.imp)))), ("flags", toJson flags)]
+                    ("fields", Json.mkObj (o.fields.map (fun f => (f.name, typedJson f.imp)))), ("flags", toJson flags)])]
+        ++ asfound)
     | .error e =>
       -- the import raises. Oracle / coverage glue for the harness (`Reported` of Props/C0506.lean): the kernel blocks of this
       -- run — `written_row_count` and full flag of every kernel call — are those of the same driver with the same budgets
@@ -173,8 +190,8 @@ def handle : Driver.Handler := fun op j =>
       let blocks : Json := match readFile file crs names.length offs im plain fuel with
         | .ok r => toJson r.calls
         | .error _ => Json.null
-      pure <| Json.mkObj [("err", Json.str e.tag), ("calls", blocks),
-                          ("flags", toJson (flagsOf file crs names.length offs im plain fuel))]
+      pure <| Json.mkObj ([("err", Json.str e.tag), ("calls", blocks),
+                          ("flags", toJson (flagsOf file crs names.length offs im plain fuel))] ++ asfound)
   | _ => none
 
 end Driver.C05
